@@ -645,7 +645,10 @@ pub fn prefs_strategy() -> impl Strategy<Value = PrefSpec> {
 pub fn resolve_fb(mut p: PrefSpec, n: &U1024) -> PrefSpec {
     if let Some(pct) = p.fb_size {
         let def = yamaquasi::params::factor_base_size(&Uint::from(*n)).max(8) as u64;
-        p.fb_size = Some(((def * pct as u64 / 100).max(16)) as u32);
+        // shrinking the base is only meaningful when it is large: a 16-prime base makes the classical sieve
+        // of a 40-bit input run forever (observed: Algo::Qs, n = 4800803772911, fb_size = 16)
+        let pct = if def < 100 { pct.max(100) } else { pct.max(80) } as u64;
+        p.fb_size = Some(((def * pct / 100).max(16)) as u32);
     }
     p
 }
@@ -701,6 +704,13 @@ pub fn is_nontrivial(c: &FCase) -> bool {
 
 pub fn workers() -> usize {
     std::env::var("YQV_WORKERS").ok().and_then(|s| s.parse().ok()).unwrap_or(16)
+}
+
+/// C01 judges returned lists only: a run that hits the watchdog returned nothing (termination under the default
+/// preferences is C03's clause, and overrides such as a 16-prime factor base can starve the classical sieve forever).
+/// Its check name carries a marker so that watchdog hits are counted, not reported as inconclusive.
+fn timeouts_are_inconclusive(check: &str) -> bool {
+    !check.starts_with("lists@")
 }
 
 /// Evaluate `cases` on worker processes of `profile`, judge each outcome, record failures.
@@ -767,7 +777,9 @@ pub fn run_batch(
         }
         outs.push(o);
     }
-    if !timeouts.is_empty() {
+    if !timeouts.is_empty() && !timeouts_are_inconclusive(check) {
+        l.label_n("watchdog-hit(not judged by this property)", timeouts.len() as u64);
+    } else if !timeouts.is_empty() {
         ctx.inconclusive(&format!(
             "{} case(s) hit the {} s watchdog under profile {} (first: {})",
             timeouts.len(),
